@@ -2208,6 +2208,28 @@ def _ctor_case(ctx):
     if kind in ("valid", "unnorm", "edge_ok", "edge_bad", "zeros", "ints", "big", "sym_numbers"):
         if kind == "big":
             n = rng.choice([256, 1024])
+        if kind in ("unnorm", "edge_bad", "valid") and ctx.index % 7 == 6:
+            # registers of 14 - 17 qubits: "sums to 1" means the same at every size (an allowance that grows with the
+            # number of amplitudes swallows an excess of 1e-4 .. 1e-2 up here)
+            n = 2 ** rng.choice([14, 15, 16, 17])
+            container = "ndarray"
+            ctx.mon.note("ctor:large-register")
+            import numpy as _np
+
+            arr = _np.asarray(ctx.nprng.normal(size=n) + 1j * ctx.nprng.normal(size=n))
+            arr = arr / _np.linalg.norm(arr)
+            f = {"valid": 1.0, "edge_bad": math.sqrt(1 + rng.choice([3e-5, -3e-5, 1e-4])),
+                 "unnorm": rng.choice([1.0005, 0.9995, 1.005, 1.05, 0.9])}[kind]
+            arr = arr * f
+            ctx.describe(f"ctor large n={n} kind={kind} factor={f!r}", True)
+            try:
+                Wavefunction(arr)
+                accepted = True
+            except ValueError:
+                accepted = False
+            ctx.check("ctor-large-register", accepted == (kind == "valid"),
+                      lambda: f"{n} amplitudes whose squared magnitudes sum to {f * f!r}: " + ("accepted" if accepted else "rejected"))
+            return
         v = rand_unit_vector(rng, n)
         if kind == "unnorm":
             f = rng.choice([0.5, 0.9, 0.99, 1.01, 1.5, 3.0, 0.0])
